@@ -92,6 +92,10 @@ M = [
      "                        self.buffer.extend_from_slice(&read_buf[..n]);\n                        if n < 2 {\n                            continue;\n                        }\n", r"R04\.8"),
     ("m61", "C15", "src/production/connection_optimized.rs", "            RespValue::Error(s) => {\n                buf.put_u8(b'-');\n                buf.extend_from_slice(s.as_bytes());\n                buf.extend_from_slice(b\"\\r\\n\");\n            }",
      "            RespValue::Error(s) => {\n                Self::encode_error_into(s, buf);\n            }", r"R15\.8"),
+    ("m62", "C08", "src/production/replicated_state.rs", "            snapshot.extend(shard_snapshot);", "            snapshot.extend(shard_snapshot.into_iter().filter(|(_, v)| !v.is_tombstone()));", r"R08\.6"),
+    ("m63", "C09", "src/streaming/wal.rs", "            .iter()\n            .filter_map(|name| parse_wal_sequence(name))\n            .max()\n            .unwrap_or(0);", "            .last()\n            .and_then(|name| parse_wal_sequence(name))\n            .unwrap_or(0);", r"R09\.8"),
+    ("m64", "C14", "src/replication/lattice.rs", "    /// Next sequence number for each replica\n    next_sequence: HashMap<ReplicaId, u64>,", "    /// Next sequence number for each replica\n    #[serde(skip)]\n    next_sequence: HashMap<ReplicaId, u64>,", r"R14\.8"),
+    ("m65", "C14", "src/streaming/checkpoint.rs", "        let key_count = state.len() as u64;\n        let data = CheckpointData { state };", "        let mut state = state;\n        state.retain(|_, v| !v.is_tombstone());\n        let key_count = state.len() as u64;\n        let data = CheckpointData { state };", r"R14\.9"),
 ]
 
 
